@@ -27,6 +27,9 @@ _code_matches = []
 
 
 def find_core_tokens(string, root):
+    # drop code span matches left behind by a tokenization that was aborted
+    # (by an exception) before InlineCode.find() could pick them up.
+    del _code_matches[:]
     delimiters = []
     matches = []
     escaped = False
